@@ -171,12 +171,23 @@ impl Property for C08 {
             args.push(a.into());
         }
         args.push(f.clone().into());
+        let args2 = args.clone();
         let out = run_s4(RunSpec { args, tmpdir: Some(&sc.dir), ..Default::default() });
         if out.timed_out {
             return Outcome::inconclusive("timeout".into());
         }
         if !out.ok01() || out.panicked() {
             return Outcome::fail("crash", format!("status={:?} signal={:?} stderr={}", out.status, out.signal, esc_trunc(&out.stderr, 1500)));
+        }
+        // the same file and options must give the same output in another process (the layout scoring iterated a
+        // HashMap: equal scores resolved differently from run to run, finding F24)
+        let out2 = run_s4(RunSpec { args: args2, tmpdir: Some(&sc.dir), ..Default::default() });
+        if out2.timed_out {
+            return Outcome::inconclusive("timeout".into());
+        }
+        if out2.stdout != out.stdout || out2.status != out.status {
+            let ty = |o: &RunOut| o.stderr_str().lines().filter(|l| l.contains("fixedstructtype:")).map(|l| l.split(':').nth(1).unwrap_or("").trim().to_string()).collect::<Vec<_>>();
+            return Outcome::fail("nondeterministic", format!("codec={} bs={} window={:?}: two runs of the same command differ: layouts {:?} vs {:?}; {}", case.codec.kind(), case.bs, w.args(), ty(&out), ty(&out2), crate::bytes::diff_msg(&out2.stdout, &out.stdout)));
         }
         let err = out.stderr_str();
         let live = order.len();
